@@ -291,6 +291,8 @@ def run(ck):
 
     # ---- theorems
     props_ok = ck.coq_props()
+    if props_ok and not ck.quick():
+        ck.coqchk(["Qryn.props.C18"])
 
     # ---- cases: corpus, witnesses of a failed re-execution obligation, generated
     cases, nid = [], [0]
@@ -409,7 +411,7 @@ def run(ck):
 
     # coq/gen is shared by all runs: make sure no concurrent run (other VERIF_REPO) replaced the lists meanwhile
     now = json.load(open(os.path.join(vcheck.COQ, "gen", "GenScripts.json")))
-    ck.obligation("coq/gen/GenScripts.* still describe this repository at the end of the run", now == gen,
+    ck.obligation("coq/gen/GenScripts.* still describe this repository at the end of the run", now.get("streams") == gen.get("streams"),
                   "GenScripts.json changed during the run (concurrent check with another VERIF_REPO?)")
 
     # ---- coverage
